@@ -45,6 +45,7 @@ def atomOfJson (j : Json) : Except String Atom := do
   | "cmp" => pure (.cmp f (← getStr j "op") (← getStr j "n"))
   | "ref" => pure (.ref f (← getStr j "f2") (getBoolD j "sw" false) (getBoolD j "ew" false))
   | "ts" => pure (.ts f (← getStr j "unit") (← getStr j "n"))
+  | "qx" => pure (.qx f (← getStr j "expr") (← getStr j "id"))
   | _ => throw s!"unknown atom kind {k}"
 
 def strOptJson : Option Str → Json | some s => strToJson s | none => Json.null
@@ -60,6 +61,7 @@ def atomToJson : Atom → Json
   | .cmp f o n => Json.mkObj [("k", "cmp"), ("f", strOptJson f), ("op", strToJson o), ("n", strToJson n)]
   | .ref f g sw ew => Json.mkObj [("k", "ref"), ("f", strOptJson f), ("f2", strToJson g), ("sw", sw), ("ew", ew)]
   | .ts f u n => Json.mkObj [("k", "ts"), ("f", strOptJson f), ("unit", strToJson u), ("n", strToJson n)]
+  | .qx f e i => Json.mkObj [("k", "qx"), ("f", strOptJson f), ("expr", strToJson e), ("id", strToJson i)]
 
 def pvOfJson (j : Json) : Except String PV :=
   match j with
@@ -114,16 +116,59 @@ def specErrJson : SpecErr → Json
   | .mod e => Json.mkObj [("specErr", "modifier"), ("detail", errJson e)]
   | .unsupported w => Json.mkObj [("specErr", "unsupported"), ("detail", w)]
   | .cond w => Json.mkObj [("specErr", "condition"), ("detail", w)]
+  | .ph (.missingVar n) => Json.mkObj [("specErr", "placeholder"), ("detail", "missing variable"), ("name", strToJson n)]
+  | .ph (.badVar n) => Json.mkObj [("specErr", "placeholder"), ("detail", "bad variable value"), ("name", strToJson n)]
+  | .ph .mixed => Json.mkObj [("specErr", "placeholder"), ("detail", "query expression placeholder mixed with text")]
+  | .unresolved n => Json.mkObj [("specErr", "unresolved"), ("name", strToJson n)]
 
 /-- `rule.sem`: the rule's detections + condition (source form), the backend configuration and the
 tokenised query the implementation emitted.  Judged: the query, read with the target language's
 precedence (`readQ`), denotes the same boolean function of the atoms as the specification reading
 of the rule. -/
+def optStrList (j : Json) (k : String) : Except String (Option (List Str)) :=
+  match j.getObjVal? k with
+  | .ok (.arr a) => do pure (some (← a.toList.mapM strOfJson))
+  | _ => pure none
+
+def phItemOfJson (j : Json) : Except String Placeholder.PhItem := do
+  let kind ← j.getObjValAs? String "kind"
+  let k : Placeholder.Kind ← match kind with
+    | "value" => pure .value
+    | "wildcard" => pure .wildcard
+    | "query" => do
+        let expr ← getStr j "expr"
+        let mapping ← match j.getObjVal? "mapping" with
+          | .ok (.arr a) => a.toList.mapM fun kv => do
+              let p ← kv.getArr?
+              pure ((← strOfJson (p.getD 0 Json.null)), (← strOfJson (p.getD 1 Json.null)))
+          | _ => pure []
+        pure (.query expr mapping)
+    | _ => throw s!"bad placeholder item kind {kind}"
+  pure { kind := k, incl := ← optStrList j "include", excl := ← optStrList j "exclude" }
+
+def varsOfJson (j : Json) : Except String (List (Str × List Placeholder.VarVal)) := do
+  match j with
+  | .arr a => a.toList.mapM fun kv => do
+      let p ← kv.getArr?
+      let name ← strOfJson (p.getD 0 Json.null)
+      let vals ← (← (p.getD 1 Json.null).getArr?).toList.mapM fun v =>
+        match v with
+        | .str "bad" => pure Placeholder.VarVal.bad
+        | _ => do pure (Placeholder.VarVal.text (← getStr v "text"))
+      pure (name, vals)
+  | _ => pure []
+
 def ruleSem (j : Json) : Except String Json := do
   let env ← envOfJson j
   let cfgj ← j.getObjVal? "cfg"
   let prec ← (← (← cfgj.getObjVal? "prec").getArr?).toList.mapM (fun o => do opOfString (← o.getStr?))
-  let cx : Ctx := { env := env, nativeCidr := getBoolD cfgj "nativeCidr" false }
+  let phItems ← match j.getObjVal? "phItems" with
+    | .ok (.arr a) => a.toList.mapM phItemOfJson
+    | _ => pure []
+  let vars ← match j.getObjVal? "vars" with
+    | .ok v => varsOfJson v
+    | .error _ => pure []
+  let cx : Ctx := { env := env, nativeCidr := getBoolD cfgj "nativeCidr" false, phItems := phItems, vars := vars }
   let dets ← (← (← j.getObjVal? "dets").getArr?).toList.mapM fun d => do
     pure ((← getStr d "name"), (← detOfJson (← d.getObjVal? "det")))
   let cond ← getStr j "cond"
